@@ -9,7 +9,7 @@ MAX_STACK = 1024
 
 class Path:
     __slots__ = ("executed", "stack", "memory", "writes", "storage", "error", "end", "taken_jumps", "decisions",
-                 "sloads", "steps", "gas", "flags")
+                 "sloads", "steps", "gas", "flags", "attempts")
 
     def __init__(self):
         self.executed = []          # instruction offsets in execution order
@@ -25,6 +25,7 @@ class Path:
         self.steps = 0
         self.gas = 0
         self.flags = set()
+        self.attempts = []          # (offset, opcode name, target value or None) for every JUMP / JUMPI executed
 
     def clone(self):
         p = Path()
@@ -39,6 +40,7 @@ class Path:
         p.steps = self.steps
         p.gas = self.gas
         p.flags = set(self.flags)
+        p.attempts = list(self.attempts)
         return p
 
 
@@ -190,6 +192,7 @@ def enumerate_paths(code, max_paths=4096, max_steps=100000, quirks=()):
                 pass
             elif name == "JUMP":
                 target = st.pop()
+                p.attempts.append((pc, "JUMP", target))
                 if target is None:
                     p.end = "symbolic-jump"
                     done.append(p)
@@ -210,6 +213,7 @@ def enumerate_paths(code, max_paths=4096, max_steps=100000, quirks=()):
             elif name == "JUMPI":
                 target = st.pop()
                 st.pop()
+                p.attempts.append((pc, "JUMPI", target))
                 if target is None:
                     err = (pc, "NoConcreteJumpDestination")
                 elif target >= n:
